@@ -488,7 +488,15 @@ func (e *Engine) scanCallee(f *ssa.Function, c *ssa.CallCommon, ws *writeSet) {
 // clauses (field names resolved syntactically) and its body's allocations.
 func (e *Engine) contractWS(ct *Contract, f *ssa.Function, ws *writeSet) {
 	if f != nil && len(f.Blocks) > 0 {
-		ws.merge(e.writeSetOf(f))
+		// the contract is the abstraction boundary: what the body may do to
+		// objects that exist already is what `modifies` says (checked when
+		// the callee is verified, assumed for trusted contracts); the body
+		// only tells which heaps fresh objects are initialised in
+		bw := e.writeSetOf(f)
+		for k, v := range bw.heaps {
+			ws.heaps[k] = v
+		}
+		ws.allocs = ws.allocs || bw.allocs || bw.all
 	}
 	for _, m := range ct.Modifies {
 		if m.Src == "*" {
@@ -549,6 +557,9 @@ func (e *Engine) externalWS(f *ssa.Function, c *ssa.CallCommon, ws *writeSet) bo
 	switch e.externalName(f) {
 	case "bytes.Compare", "bytes.Equal":
 		return true
+	case "fmt.Errorf", "errors.New":
+		ws.allocs = true
+		return true
 	case "(*sync.Mutex).Lock", "(*sync.Mutex).Unlock", "(*sync.RWMutex).Lock", "(*sync.RWMutex).Unlock", "(*sync.RWMutex).RLock", "(*sync.RWMutex).RUnlock":
 		if c != nil && len(c.Args) > 0 {
 			if l := e.staticLoc(c.Args[0]); l != nil {
@@ -573,6 +584,13 @@ func (e *Engine) externalWS(f *ssa.Function, c *ssa.CallCommon, ws *writeSet) bo
 
 func (e *Engine) externalModel(f *ssa.Function) extModel {
 	switch e.externalName(f) {
+	case "fmt.Errorf", "errors.New":
+		return func(fr *Frame, site ssa.Instruction, args []*Val, res *types.Tuple) *Val {
+			r := fr.newRef("errval")
+			tag := fr.vc.fresh("errtag", sInt)
+			fr.vc.fact(app("<", "0", tag))
+			return &Val{t: mkIfc(tag, r), sort: sIfc, typ: res.At(0).Type()}
+		}
 	case "bytes.Compare":
 		return func(fr *Frame, site ssa.Instruction, args []*Val, res *types.Tuple) *Val {
 			a, b := fr.rankTerm(args[0].t), fr.rankTerm(args[1].t)
